@@ -700,6 +700,38 @@ func checkHelpers(c *Ctx) {
 			c.Undecided("T5", "journal.funcMap", name, "-", "helper "+name+" not found by its parameter type")
 			return
 		}
+		// the registered closure may only hand its argument to a helper of the module (a generic "value or zero"): the
+		// helper is then what is checked
+		for hop := 0; hop < 2 && len(f.Blocks) == 1; hop++ {
+			var only *ssa.Call
+			n := 0
+			for _, in := range f.Blocks[0].Instrs {
+				switch x := in.(type) {
+				case *ssa.Call:
+					only = x
+					n++
+				case *ssa.Return, *ssa.DebugRef:
+				default:
+					n += 2
+				}
+			}
+			ret, isRet := f.Blocks[0].Instrs[len(f.Blocks[0].Instrs)-1].(*ssa.Return)
+			if n != 1 || !isRet || len(ret.Results) != 1 || ret.Results[0] != ssa.Value(only) || len(only.Call.Args) != 1 || only.Call.Args[0] != ssa.Value(f.Params[0]) {
+				break
+			}
+			h := only.Call.StaticCallee()
+			if h == nil || len(h.Blocks) == 0 || len(h.Params) != 1 || h.Pkg == nil && h.Origin() == nil {
+				break
+			}
+			owner := h
+			if h.Origin() != nil {
+				owner = h.Origin()
+			}
+			if !c.P.isModuleFn(owner) && !c.P.isModuleFn(h) {
+				break
+			}
+			f = h
+		}
 		tb, err := extractTable(f)
 		if err != nil {
 			c.Undecided("T5", shortName(f), name+" table", c.P.pos(f.Pos()), err.Error())
